@@ -8,5 +8,5 @@ CONSTANTS
   MaxLen = 7
   SplitMaxP = 0
   SplitMaxAmt = 0
-  Defects = {}
+  Defects = {"aggregate_lock_pairs_grants"}
 CHECK_DEADLOCK FALSE
